@@ -185,7 +185,7 @@ pub fn def() -> PropertyDef {
         families: vec![
             Family { name: "finite", max_len: 200, quick: 200_000, thorough: 5_000_000, run: run_finite },
             Family { name: "infinite", max_len: 160, quick: 20_000, thorough: 400_000, run: run_infinite },
-            Family { name: "scale", max_len: 48, quick: 6_000, thorough: 100_000, run: run_scale },
+            Family { name: "scale", max_len: 48, quick: 6_000, thorough: 60_000, run: run_scale },
         ],
         fixed: vec![],
         witnesses: vec![],
